@@ -50,6 +50,7 @@ import (
 func init() { register("C07", runC07) }
 
 func runC07(r *Run) {
+	c07CancelAfterNeighbourReturnedEarly(r)
 	topoSweep(r, "cancel")
 	if r.Want("cancel") {
 		c07Family(r, "cancel")
